@@ -40,6 +40,7 @@ def run(chk):
     chk.require('grid_schedules_fully_consumed', GRID * 9 // 10)
     chk.require('transfers_with_schedule_fully_consumed', n // 4)
     chk.require('lifecycle_cases', n // 4)
+    chk.require('histories_with_descriptor_0_free', 100)
     chk.require('scenarios_with_clean_census', n * 9 // 10)
     chk.require('short_reads_injected', 2000)
     chk.require('short_writes_injected', 2000)
